@@ -3,3 +3,4 @@
 pub mod align;
 pub mod rule;
 pub mod rule_bool;
+pub mod rule_env;
